@@ -203,14 +203,14 @@ def Branch.ofParts : List RP → Option Branch
   | [.az _, .lon _, .tmp _] => some .azLonTmp
   | _ => Option.none
 
-/-- literal tuple of branch `[Azimuthal]`, awkward.py L714-720 -/
-def exclAz : List String := ["x", "y", "rho", "pt", "phi"]
+/-- literal tuple of branch `[Azimuthal]`, awkward.py L714-722 -/
+def exclAz : List String := ["x", "y", "px", "py", "rho", "pt", "phi"]
 /-- literal tuple of branch `[Azimuthal, Longitudinal]`, awkward.py L829-839 -/
-def exclAzLon : List String := ["x", "y", "rho", "pt", "phi", "z", "pz", "theta", "eta"]
+def exclAzLon : List String := ["x", "y", "px", "py", "rho", "pt", "phi", "z", "pz", "theta", "eta"]
 /-- literal tuple of branches `[Azimuthal, None]` (L763-781), `[Azimuthal, Longitudinal, None]` (L892-910),
 `[Azimuthal, Longitudinal, Temporal]` (L966-984) -/
 def exclAll : List String :=
-  ["x", "y", "rho", "pt", "phi", "z", "pz", "theta", "eta", "t", "tau", "m", "M", "mass", "e", "E", "energy"]
+  ["x", "y", "px", "py", "rho", "pt", "phi", "z", "pz", "theta", "eta", "t", "tau", "m", "M", "mass", "e", "E", "energy"]
 
 def Branch.excl : Branch → List String
   | .az => exclAz
@@ -222,16 +222,15 @@ def RP.names : RP → List String
   | .az a => a.names | .lon l => [l.str] | .tmp c => [c.str] | .none => []
 def resultNames (parts : List RP) : List String := parts.flatMap RP.names
 
-/-- dimension of the result class: `ProjectionClass2D/3D/4D`, chosen in branches `[Azimuthal]` (L724-729) and
-`[Azimuthal, Longitudinal]` (L843-846) by looking for LITERAL field names of `self` -/
-def Branch.dim (b : Branch) (fields : List String) : Nat :=
+/-- dimension of the result class: `ProjectionClass2D/3D/4D`, chosen in branches `[Azimuthal]` and
+`[Azimuthal, Longitudinal]` (the branches that pass stored longitudinal / temporal fields of `self` through) from the
+class of `self` itself: `isinstance(self, Vector4D)` / `isinstance(self, Vector3D)` (after the repair "fix: Awkward
+results drop the operand's px/py ..."; the pinned tree looked for the LITERAL field names t/tau/z/theta/eta) -/
+def Branch.dim (b : Branch) (selfDim : Nat) : Nat :=
   match b with
-  | .az =>
-    if fields.contains "t" || fields.contains "tau" then 4
-    else if fields.contains "z" || fields.contains "theta" || fields.contains "eta" then 3
-    else 2
+  | .az => if selfDim == 4 then 4 else if selfDim == 3 then 3 else 2
   | .azNone => 2
-  | .azLon => if fields.contains "t" || fields.contains "tau" then 4 else 3
+  | .azLon => if selfDim == 4 then 4 else 3
   | .azLonNone => 3
   | .azLonTmp => 4
 
@@ -240,12 +239,13 @@ def Branch.carried {S : Type} (b : Branch) (numVecargs : Nat) (selfFields : List
     List (String × S) :=
   if numVecargs == 1 then selfFields.filter (fun f => !b.excl.contains f.1) else []
 
-/-- the real `_wrap_result` for a vector result: dimension of the result class and its fields in order.
+/-- the real `_wrap_result` for a vector result: dimension of the result class and its fields in order; `selfDim` is the
+dimension of the class of `self` (2 for anything that is neither a `Vector3D` nor a `Vector4D`).
 (`dict(zip(names, arrays))`: `zip` stops at the shorter list; names never clash, see `c18_real_no_clash`.) -/
-def realWrap {S : Type} (parts : List RP) (numVecargs : Nat) (selfFields : List (String × S)) (raw : List S) :
-    Except Err (Nat × List (String × S)) :=
+def realWrap {S : Type} (parts : List RP) (numVecargs : Nat) (selfDim : Nat) (selfFields : List (String × S))
+    (raw : List S) : Except Err (Nat × List (String × S)) :=
   match Branch.ofParts parts with
   | Option.none => .error .assertionError
-  | some b => .ok (b.dim (selfFields.map (·.1)), (resultNames parts).zip raw ++ b.carried numVecargs selfFields)
+  | some b => .ok (b.dim selfDim, (resultNames parts).zip raw ++ b.carried numVecargs selfFields)
 
 end VG
